@@ -3,6 +3,7 @@ import Smoke.Scan
 import Smoke.ExpParse
 import Smoke.CodeScan
 import Smoke.Eval
+import Smoke.Full
 open Lean HS
 
 def posJ (p : Pos) : Json := Json.arr #[p.line, p.col]
@@ -24,6 +25,10 @@ partial def loop (h : IO.FS.Stream) (out : IO.FS.Stream) : IO Unit := do
   match Json.parse line with
   | .ok j =>
     let s := (j.getObjValAs? String "src").toOption.getD ""
+    if (j.getObjValAs? String "op").toOption == some "render" then
+      out.putStrLn (Json.compress (Full.renderOp j))
+      out.flush
+      return ← loop h out
     if (j.getObjValAs? String "op").toOption == some "codescan" then
       let ts := CS.scan ⟨1, 1⟩ s.toList
       let kindN : CS.Kind → Nat
